@@ -29,6 +29,14 @@ deleted construct is a violated instance:
         with the relation's id() is the one fed with the relation id
  R3 [5] remove(): exactly one element is marked per call -- not yet marked, belonging to that relation, through a
         reference, and the loop is left afterwards
+ R4 [F23] remove(): after the stash release of a handle read from the found range no element of that range keeps it: on
+        every path after the release the whole range is walked by an element loop (entered only when the object was
+        released) that stores a default-constructed handle into the handle field of every element, unconditionally and
+        through a mutable reference -- or the range is erased.  get_object() dereferences every handle that is valid(),
+        so a kept handle is a wild pointer for "a later lookup reports them as absent" (defect F23, fixed in /repo).
+        RelationsDatabase::remove's analogue is I1 (#stash-release-then-handle-invalidated).  Not accepted (would need an
+        all-of-range quantifier in get_object, which G1 cannot classify either): leaving the handles and refusing in
+        the lookup.
  H1 [1] handle_complete_relation(): the complete_relation() callback runs exactly once with *handle and dominates every
         call that reaches ItemStash::remove_item; every member with ref != 0 (and only guarded by that test) is released
         once per iteration with (member.ref(), handle->id()) on member_database(member.type()); the relation itself is
@@ -86,6 +94,7 @@ overload taking a ProgressBar is not instantiated by the drivers and therefore n
 follows the callback" is implemented in the weaker inter-procedural form stated under H1 because a flush inside
 handle_complete_relation is redundant with the one every second-pass handler performs after add().
 """
+from ..c11_util import exit_t as exit_t_, is_noreturn as is_noreturn_
 from ..c11_util import (Collector, call_edge_filter, elem_loops, inline_calls, loop_contains, calls, can_follow, counts_from_zero_by_one, every_path_passes, exactly_once, guard_conds, live,
                         nonzero_guarded, origin, param_root, root_through_refs, subtree_calls, var_edge_filter, zero_test)
 from ..flow import describe_path
@@ -745,6 +754,82 @@ def _counts_unmarked(fb, g, pred_q):
     return None
 
 
+def released_handle_check(fb, R, fn, rroot, rel_calls, elem_prefix, handle_ctor_q, container_q, key):
+    """R4: after `stash.remove_item(h)` with h read from a stored element of the found range, no element of that range may
+    keep h (lookups dereference every handle that is valid()).  Accepted: on every path after the release the WHOLE found
+    range is walked by an element loop that is entered only after the release and stores a default-constructed (invalid)
+    handle into the handle field of EVERY element, unconditionally, through a mutable reference; or the range is erased
+    from the container.  Reports one instance `key`."""
+    from ..flow import path_search
+    ok, msg, site = True, '', fn.site
+    for r in rel_calls:
+        args = [a for a in r.get('args', []) if a is not None]
+        o = origin(fn, args[0]) if args else None
+        if o is None or o.get('k') != 'member' or not o.get('field') or not o.get('q', '').startswith(elem_prefix + '::') \
+                or root_through_refs(fn, o['id']) != rroot:
+            continue            # not a handle stored in the found range: nothing is left dangling there
+        hfield = o['q']
+        # (b) erased
+        erased = [c for c in fn.all_nodes() if c.get('k') == 'call' and c.get('q', '').rsplit('::', 1)[-1] == 'erase' and c.get('recv') is not None
+                  and (fn.sn(c['recv']) or {}).get('q') == container_q and fn.elem_dominates(r['id'], c['id'])
+                  and len([a for a in c.get('args', []) if a is not None and root_through_refs(fn, a) == rroot]) == 2]
+        if erased and every_path_passes(fn, [c['id'] for c in erased], start=r['id']) is None:
+            continue
+        # (a) invalidation loop
+        good = None
+        why = 'the elements of the found range keep the released handle: a later lookup finds it valid() and dereferences a freed stash item'
+        for L in elem_loops(fn):
+            if root_through_refs(fn, L.seq) != rroot:
+                continue
+            stores = []
+            for n in fn.all_nodes():
+                tgt = val = None
+                if n.get('k') == 'call' and n.get('op') == '=' and n.get('recv') is not None:
+                    tgt, val = n['recv'], (n.get('args') or [None])[0]
+                elif n.get('k') == 'assign':
+                    tgt, val = n['lhs'], n['rhs']
+                if tgt is None or val is None or not loop_contains(fn, L, n['id']):
+                    continue
+                t = fn.sn(tgt)
+                if t is None or t.get('k') != 'member' or t.get('q') != hfield or not L.is_elem(fn, tgt):
+                    continue
+                if [x for x in fn.subtree(val) if fn.nodes[x].get('k') == 'construct' and fn.nodes[x].get('q') == handle_ctor_q and not fn.nodes[x].get('args')]:
+                    stores.append(n['id'])
+            if not stores:
+                continue
+            if not L.mutable:
+                why = 'the invalidation loop works on copies of the elements (loop variable by value)'
+                continue
+            def gkeys(nid):
+                return {(('var', n.get('d')) if n.get('k') == 'var' else ('expr', fn.expr(n['id'])), s_) for (n, s_) in guard_conds(fn, nid)
+                        if not (n.get('k') == 'call' and n.get('op') == '!=')}
+            same_condition = bool(gkeys(r['id'])) and gkeys(r['id']) <= gkeys(L.start) and can_follow(fn, [r['id']], [L.start]) is not None
+            if not fn.elem_dominates(r['id'], L.start) and not same_condition:
+                why = 'the handles of the range are invalidated on paths on which the object was NOT released (the reset does not follow the release)'
+                continue
+            w = every_path_passes(fn, stores, start=L.start, until=[L.inc])
+            if w is not None:
+                why = 'not every element of the range gets the invalid handle (the store is conditional): ' + describe_path(fn, w)
+                continue
+            # the loop is reached on every path from the release to the exit
+            pos = fn.positions()
+            header = fn.succs(pos[L.inc][0]) if L.inc in pos else []          # the loop condition block follows the advance
+            gate = {e for b in header for e in fn.blocks[b]['elems']} | {L.start}
+            # paths are followed consistently with the named bool conditions under which the release itself executes
+            filters = [var_edge_filter(fn, k[1], s_) for (k, s_) in gkeys(r['id']) if k[0] == 'var']
+
+            def edge_ok(b, idx, s_, filters=filters):
+                return all(f(b, idx, s_) for f in filters)
+            w = path_search(fn, r['id'], exit_t_, lambda e: e in gate or is_noreturn_(fn, e), edge_ok)
+            if w is not None:
+                why = 'a path from the release to the exit skips the invalidation loop: ' + describe_path(fn, w)
+                continue
+            good = L
+        if good is None:
+            ok, msg, site = False, why, fn.loc(r['id'])
+    R.check(ok, 'R4-released-handle-not-kept', key, site, msg)
+
+
 def remove_rules(fb, R, M):
     if not M.remove_fns:
         R.broken('%s: no method that releases a member from the stash (remove) found' % MDC)
@@ -838,6 +923,9 @@ def remove_rules(fb, R, M):
                 if ok and can_follow(fn, [m['id'] for m in marks], [m['id'] for m in marks]) is not None:
                     ok, msg = False, 'more than one element can be marked per call (duplicate members of one relation would never be released)'
             R.check(ok, 'R3-remove-marks-exactly-one', q + '#marks-one-live-element-of-that-relation', fn.site, msg)
+            # ---- R4 released handle not kept
+            released_handle_check(fb, R, fn, rroot, rel, M.elem, STASH + '::handle_type::(ctor)', M.proto.field_q,
+                                  q + '#no-element-keeps-the-released-handle')
             # ---- R2 roles at the call sites
             ncs = 0
             ok, msg = p_find is not None and p_rel is not None and p_find != p_rel, 'cannot tell the searched parameter from the relation-id parameter'
@@ -1838,6 +1926,7 @@ def run(ctx):
     R.expect('R1-release-only-last-reference', 5)
     R.expect('R2-remove-argument-roles', 1)
     R.expect('R3-remove-marks-exactly-one', 1)
+    R.expect('R4-released-handle-not-kept', 1)
     R.expect('H1-callback-before-release', 7)
     R.expect('H2-completion-functor', 3)
     R.expect('H3-not-in-any-relation-iff-not-added', 3)
@@ -1857,12 +1946,31 @@ def _selftest_container(fb, R):
     container_rules(fb, R, 'c11pos::Unsorted', 'm_entries')
 
 
+def _selftest_released_handle(fb, R):
+    class _M(object):
+        pass
+    M = _M()
+    M.find_usrs = {f.usr for f in fb.fns('c11pos3::Db::find')}
+    for fn in fb.functions:
+        if fn.cls == 'c11pos3::Db' and fn.has_cfg and calls(fn, 'c11pos3::Stash::remove_item'):
+            fr = _found_range(fn, M)
+            if fr is None:
+                R.broken('positive example: no found range in %s' % fn.q)
+                continue
+            released_handle_check(fb, R, fn, ('var', fr[0], fr[1]), calls(fn, 'c11pos3::Stash::remove_item'), 'c11pos3::element',
+                                  'c11pos3::handle_type::(ctor)', 'c11pos3::Db::m_elements', fn.q + '#no-element-keeps-the-released-handle')
+    if R.instances.get(('R4-released-handle-not-kept', 'c11pos3::Db::remove_ok#no-element-keeps-the-released-handle')) is not None and \
+            not R.instances[('R4-released-handle-not-kept', 'c11pos3::Db::remove_ok#no-element-keeps-the-released-handle')].ok:
+        R.broken('positive example: the correct form remove_ok is reported')
+
+
 def _selftest_lost_update(fb, R):
     lost_update_check(fb, R, [f for f in fb.functions if f.has_cfg])
 
 
 SELFTESTS = [
     ('L1-write-reaches-storage', 'c11_lost_update.cpp', _selftest_lost_update),
+    ('R4-released-handle-not-kept', 'c11_released_handle.cpp', _selftest_released_handle),
     ('S1-search-key-prefix-of-sort-key', 'c11_sorted.cpp', _selftest_container),
     ('S2-searched-container-is-sorted', 'c11_sorted.cpp', _selftest_container),
     ('S3-phase-partition', 'c11_sorted.cpp', _selftest_container),
